@@ -544,7 +544,8 @@ fn one<T: Serialize + DeserializeOwned + Clone + Shape>(out: &mut dyn Write, ty:
     let again = enc_route("toml::to_string#2", || toml::to_string(&v).map_err(|e| e.to_string()));
     let mut dec = Vec::new();
     let mut fixed = json!({"res": "none", "text": []});
-    if let Ok(text) = toml::to_string(&v) {
+    // a panic of the encoder is data (recorded by the `enc` routes above), never the end of the driver
+    if let Ok(Ok(text)) = catch_unwind(AssertUnwindSafe(|| toml::to_string(&v))) {
         dec.push(dec_route("toml::from_str", &orig, || toml::from_str::<T>(&text).map(ByShape).map_err(|e| e.to_string())));
         dec.push(dec_route("toml_edit::de::from_str", &orig, || toml_edit::de::from_str::<T>(&text).map(ByShape).map_err(|e| e.to_string())));
         dec.push(dec_route("toml_edit::de::from_slice", &orig, || toml_edit::de::from_slice::<T>(text.as_bytes()).map(ByShape).map_err(|e| e.to_string())));
